@@ -188,6 +188,20 @@ def ephem_case(mode, K):
             kw = {"start": start, "stop": stop}
             if mode == "step":
                 kw["step"] = td(v["step"])
+            cleared = []
+
+            class Lst:
+                prev = "stale state of an earlier iteration"
+
+                def clear(self):
+                    cleared.append(1)
+                    self.prev = None
+
+                def check(self, orb):
+                    return False
+            kw["listeners"] = [Lst()]
+            if mode == "dates":
+                kw = {"dates": [start, stop], "listeners": kw.get("listeners", [])}
             out = {}
             n = 0
             for k, o in enumerate(e.iter(**kw)):
@@ -198,6 +212,7 @@ def ephem_case(mode, K):
                 if k > K + 2:
                     raise AssertionError("unwinding bound exceeded")
             out["count"] = n
+            out["listeners_cleared_once"] = 1 if len(cleared) == 1 else 0
             return out
         finally:
             if not env.symbolic:
@@ -205,7 +220,12 @@ def ephem_case(mode, K):
 
     def ref(env, v, out):
         n = out["count"]
-        r = {}
+        r = {"listeners_cleared_once": 1}
+        if mode == "dates":
+            r["count"] = 2
+            r["t0"] = v["off"]
+            r["t1"] = v["off"] + v["span"]
+            return r
         if mode == "step":
             cnt = 0
             for k in range(K + 3):
@@ -223,9 +243,11 @@ def ephem_case(mode, K):
                 if env.symbolic:
                     r[f"copy{k}"] = 1
         return r
+    what = {"step": "with a step: start + k*step up to stop", "nostep": "without step: exactly the table points inside [start, stop], as copies",
+            "dates": "over an explicit list of dates: exactly those dates"}[mode]
     return Case(f"ephem/{mode}", ins, run, ref, pre=pre, timeout=90, maxpaths=600, tol=1e-9, abs_tol=3e-6,
-                desc=f"Ephem.iter ({'with a step' if mode == 'step' else 'without step'}) on any 3-point table and any [start, stop] inside it: "
-                     + ("start + k*step up to stop" if mode == "step" else "exactly the table points inside [start, stop], as copies"))
+                desc=f"Ephem.iter on any 3-point table and any [start, stop] inside it, {what}; the listeners passed in are cleared "
+                     "exactly once before the first point (re-used listener objects start from a clean state)")
 
 
 def ephem_bwd_case(K):
@@ -463,7 +485,7 @@ def all_cases(tier):
     for sign in (1, -1):
         for sk in ("date", "timedelta"):
             cs.append(analytical_case(sign, sk, K))
-    cs += [dates_case(), ephem_case("step", K), ephem_case("nostep", K), ephem_strict_case(), ephem_bwd_case(K),
+    cs += [dates_case(), ephem_case("step", K), ephem_case("nostep", K), ephem_case("dates", K), ephem_strict_case(), ephem_bwd_case(K),
            keplernum_case("fwd_long", bounds(tier)["keplernum_steps"]), keplernum_case("fwd_short", bounds(tier)["keplernum_steps"]),
            keplernum_case("bwd", bounds(tier)["keplernum_steps"])]
     return cs
